@@ -133,7 +133,7 @@ def make_executor(rp, rec, fault_box):
             t['state'] = state
             rec.append(['advance', t['uid'], state, bool(push), t.get('target_state'), t.get('exit_code')])
     p.publish, p.advance = publish, advance
-    p.advance_tasks = lambda tasks, state, publish, push, ts=None: advance(tasks, state, publish, push)
+    # (the real AgentExecutingComponent.advance_tasks sorts the tasks by origin and hands each group on through advance())
     p._create_exec_script   = lambda launcher, task: ('exec.sh', 'exec.sh')
     p._create_launch_script = lambda launcher, task, ep: ('launch.sh', 'launch.sh')
     orig_ht = Popen.handle_timeout
@@ -313,8 +313,13 @@ def run_bulk(rp, tasks):
     failing = set('task.%06d' % u for u, f, c in tasks if f)
     tds = []
     for u, f, c in tasks:
-        t = dict({'uid': 'task.%06d' % u, 'state': 'AGENT_EXECUTING_PENDING', 'origin': 'client',
-                  'description': {'timeout': 0.0, 'startup_timeout': 0.0, 'stdout': None, 'stderr': None},
+        # where a task comes from decides where its updates go (advance_tasks): the application, a raptor master
+        # (its workers: origin 'raptor', bound to the master by raptor_id), the agent itself (services).  (A task of the
+        # application that is bound to a master is by design announced to both, i.e. twice - DESIGN.md 7.3 - and is
+        # left out here.)
+        origin, rid = [('client', None), ('client', None), ('raptor', 'master.0000'), ('agent', None), ('client', None)][u % 5]
+        t = dict({'uid': 'task.%06d' % u, 'state': 'AGENT_EXECUTING_PENDING', 'origin': origin,
+                  'description': {'timeout': 0.0, 'startup_timeout': 0.0, 'stdout': None, 'stderr': None, 'raptor_id': rid},
                   'task_sandbox_path': '.', 'slots': []})
         tds.append(t)
     def fake_popen(*a, **k):
@@ -361,6 +366,12 @@ def run_bulk(rp, tasks):
         elif r[2] == 'FAILED': evs.append(['failed', n])
         elif r[2] == 'AGENT_STAGING_OUTPUT_PENDING': evs.append(['handed', n, r[4]])
         else: evs.append(['other', n, r[2]])
+    # (the start of the bulk is announced group by group - the application's tasks, those of a raptor master, the agent's
+    #  own: the order of the announcements within that first block is not an observable of its own; bulk order here)
+    k = 0
+    while k < len(evs) and evs[k][0] == 'start': k += 1
+    order = [u for u, f, c in tasks]
+    evs[:k] = sorted(evs[:k], key=lambda e: order.index(e[1]) if e[1] in order else 99)
     return evs
 
 
